@@ -31,6 +31,11 @@ def run(ctx, R, tier):
     # nothing is lost: a track is not unloaded while a descendant track (with its sounds) is alive
     from .c12 import remove_rule
     remove_rule(F, R, rule='B.C02.alive')
+    # 'multiplied by the volume of every track on its path': the volume tweens of a track advance whether or not it is paused
+    from .c06 import ungated
+    ungated(F, R, rule='B.C02.ungated')
+    from .c07 import pickup_order
+    pickup_order(F, R, rule='B.C02.pickup-order', which=('mixer',))
 
 
 def builders(F, R):
